@@ -32,7 +32,7 @@ class Timeout(Exception):
     pass
 
 
-def read_all(text, seconds=5):
+def read_all(text, seconds=5, reader=None):
     """-> ("ok", [models]) | ("lex", excname) | ("other", excname, msg) | ("timeout",)"""
     import hy
     from hy.reader.exceptions import LexException, PrematureEndOfInput
@@ -48,7 +48,7 @@ def read_all(text, seconds=5):
         old = None  # not in the main thread: no watchdog
     try:
         try:
-            return ("ok", list(hy.read_many(text)))
+            return ("ok", list(hy.read_many(text, reader=reader)))
         except PrematureEndOfInput:
             return ("lex", "PrematureEndOfInput")
         except LexException:
@@ -98,7 +98,8 @@ def tokens(text):
 
 def cut_class(text, n):
     """Classify the prefix text[:n] of a well-formed program: 'inside' an unclosed construct, 'between' top-level forms,
-    or None (the cut splits an atom or a prefix token: not judged)."""
+    or None (not judged: the cut splits an atom or a multi-character token at top level, where the shorter token may
+    be a complete form, or leaves an ill-formed dotted identifier)."""
     frames = [[]]  # each frame: list of pending prefix counters
 
     def complete():
@@ -129,14 +130,26 @@ def cut_class(text, n):
         if s >= n:
             break
         # the cut splits this token
-        if kind == "str":
-            return "inside" if n > s + txt.index('"') else None   # before the opening quote only the prefix letters were read
-        if kind == "bstr":
-            return "inside" if n >= s + 2 else None
         if kind in ("ws",):
             break
         if kind == "comment":
             break
+        piece = txt[:n - s]
+        if kind == "str" and n > s + txt.index('"'):
+            return "inside"
+        if kind == "bstr" and n >= s + 2:
+            return "inside"
+        # what was read is a shorter token: string prefix letters (an identifier), the first character(s) of a
+        # multi-character prefix or opener ("#", "~", "#*"), or the beginning of an atom
+        if piece in ("~", "#*"):
+            return "inside"        # themselves prefixes that still wait for their form
+        if len(frames) > 1 or frames[0]:
+            # Still inside an open bracket or after a pending prefix: premature, whatever the piece is --
+            # unless the piece is by itself an ill-formed token (a dotted identifier cut right after a dot,
+            # or a keyword cut before its name inside a dotted form), where a lexing error is as legitimate.
+            if kind == "atom" and (piece.endswith(".") and piece.strip(".") or ".." in piece.lstrip(".")):
+                return None
+            return "inside"
         return None
     if len(frames) > 1 or frames[0]:
         return "inside"
